@@ -563,6 +563,46 @@ def m12(rep):
         rep.ok("M12", "hash-of-the-whole-name", sample={"assignments followed": n})
 
 
+M13_WRITERS = {
+    "gc0ExternDecls": "sets the unit's statement total once, before anything is generated",
+    "gc0SeqStmt": "adds the statements of a Seq nested in a Seq (none occurs in the FOAM that reaches the generator; noted as "
+                  "dormant by two agents) and resizes the statement vector with it",
+}
+
+
+def m13(rep):
+    """Whether a unit is split into files is one decision: gc0OverSMax() compares the unit's statement total gcvNStmts with
+    -Csmax, and a dozen sites ask it while the unit is generated -- declarations choose between static/short/embedded and
+    extern/unit-prefixed/in-the-header on its answer, uses choose their names on it.  The answer must be the same at every
+    site, so the total must not move once generation has started: a function that adds to it (keeping `the count in step`
+    with statements it appends) flips the answer midway for a limit just above the total, and the C declares one set of names
+    and uses another.  gcvNStmts is written only by the confirmed writers."""
+    f = common.extract("genc.c", all_trees=True)
+    n = 0
+    for name, fn in sorted(f.funcs.items()):
+        if "body" not in fn or not fn.get("file", "").endswith("genc.c"):
+            continue
+        for x in walk(fn["body"]):
+            tgt = None
+            if x["k"] in ("BinaryOperator", "CompoundAssignOperator") and x["op"].endswith("=") and x["op"] not in ("==", "!=", "<=", ">="):
+                tgt = strip(x["c"][0])
+            elif x["k"] == "UnaryOperator" and x["op"] in ("++", "--", "post++", "post--"):
+                tgt = strip(x["c"][0])
+            if tgt is None or tgt["k"] != "DeclRefExpr" or tgt["n"] != "gcvNStmts":
+                continue
+            n += 1
+            key = "split-decision-stable:%s" % name
+            if name in M13_WRITERS:
+                rep.ok("M13", key + "@%d" % x["l"], nontrivial=(name == "gc0ExternDecls"))
+            else:
+                rep.violation("M13", key, "genc.c:%d (%s)" % (x["l"], name),
+                              "%s changes gcvNStmts, the total that gc0OverSMax() compares with -Csmax, while the unit is being "
+                              "generated: for a statement limit just above the unit's total the answer turns from `not split` to "
+                              "`split` midway, the declarations already written are the unsplit kind and the definitions use the "
+                              "split names -- the generated C does not compile" % name)
+    rep.floor("writes of the unit's statement total", n, 2)
+
+
 def run(tier, only=None):
     rep = common.Report("C16", tier, EXPLANATION)
     f = common.extract("genc.c", all_cfg=True)
@@ -619,6 +659,7 @@ def run(tier, only=None):
     m10(rep)
     m11(rep)
     m12(rep)
+    m13(rep)
     mx = max(ch for ch, _, _ in rows if ch is not None)
     if mx >= bound:
         rep.violation("M3", "table-chars", "genc.c (ccSpecCharIdTable)", "character %d indexes tables of %d elements" % (mx, bound))
